@@ -132,7 +132,13 @@ type tbLeaf struct{ *leaf }
 
 func (l tbLeaf) Helper() {}
 func (l tbLeaf) Log(args ...interface{}) {
-	l.log = append(l.log, got{-100, fmt.Sprint(args...)})
+	// a test double that collects what is logged for assertions at the end of the test: it keeps the strings
+	// it is handed (strings are immutable; whoever passes one may not change it afterwards)
+	if s, ok := args[0].(string); ok && len(args) == 1 {
+		l.log = append(l.log, got{-100, s})
+	} else {
+		l.log = append(l.log, got{-100, fmt.Sprint(args...)})
+	}
 	l.calls++
 }
 func (l tbLeaf) Logf(format string, args ...interface{}) {
